@@ -11,7 +11,7 @@ from twisted.internet.address import IPv4Address
 from twisted.internet.testing import StringTransport
 
 from .. import boot
-from ..result import Result, h64
+from ..result import Result, h64, keep_going
 
 ID = 'C14'
 LEVEL = 'exploration'
@@ -523,7 +523,7 @@ def run_shard(spec):
     res = Result()
     rng = random.Random(spec['seed'])
     n = 0
-    while res.elapsed() < spec['budget']:
+    while keep_going(res, spec):
         n += 1
         if n % 7 == 1:
             bad, case = [], None
